@@ -1,7 +1,7 @@
 (* C06 — accepted token responses are reported exactly as the server sent them.
    Statements only; proofs in proofs/Serde_proofs.v (decoder = model/Serde.v decode_token over the
    JSON AST of lib/Json.v; from text through from_body/json_parse). *)
-From OA Require Import Bytes Json Json_proofs Serde SerdeSpec Serde_proofs Responses_proofs.
+From OA Require Import Bytes Json Json_proofs Lower Serde SerdeSpec Serde_proofs Responses_proofs.
 From Coq Require Import ZArith Permutation.
 Local Open Scope Z_scope.
 
@@ -30,7 +30,7 @@ Section C06.
       decode_token ef (JObj m) = Some t ->
       find_key (s2b "access_token") m = Some (JStr (tr_access t) true) /\
       (exists s, find_key (s2b "token_type") m = Some (JStr s true) /\
-                 tr_type t = token_type_from_str (lower s)) /\
+                 tr_type t = token_type_from_str (lower_tt s)) /\
       match find_key (s2b "expires_in") m with
       | None | Some JNull => tr_expires t = None
       | Some (JInt z) => tr_expires t = Some (Z.to_N z) /\ (0 <= z <= U64MAXZ)
@@ -65,8 +65,8 @@ End C06.
 
 Theorem C06_token_type_case_insensitive :
   forall s,
-    d_token_type (JStr s true) = Some (token_type_from_str (lower s)) /\
-    d_token_type (JStr (lower s) true) = d_token_type (JStr s true).
+    d_token_type (JStr s true) = Some (token_type_from_str (lower_tt s)) /\
+    d_token_type (JStr (lower_tt s) true) = d_token_type (JStr s true).
 Proof. exact token_type_case_insensitive. Qed.
 
 (* the standard and the extension response types of the correspondence run are instances *)
